@@ -259,8 +259,26 @@ func callsTo(fn *ssa.Function, target *ssa.Function) []ssa.CallInstruction {
 func pathExpr(v ssa.Value) string {
 	switch x := v.(type) {
 	case *ssa.Parameter:
-		return x.Name()
+		return paramName(x)
 	case *ssa.FreeVar:
+		// a closure's captured receiver renders like the receiver itself
+		if fn := x.Parent(); fn != nil && fn.Parent() != nil {
+			for i, fv := range fn.FreeVars {
+				if fv != x {
+					continue
+				}
+				// find the MakeClosure in the parent binding this free variable
+				for _, b := range fn.Parent().Blocks {
+					for _, ins := range b.Instrs {
+						if mc, ok := ins.(*ssa.MakeClosure); ok && mc.Fn == fn && i < len(mc.Bindings) {
+							if prm, ok := mc.Bindings[i].(*ssa.Parameter); ok {
+								return paramName(prm)
+							}
+						}
+					}
+				}
+			}
+		}
 		return x.Name()
 	case *ssa.Const:
 		if x.Value == nil {
@@ -283,7 +301,7 @@ func pathExpr(v ssa.Value) string {
 				}
 				if n == 1 && src != nil {
 					if prm, ok := src.(*ssa.Parameter); ok {
-						return prm.Name()
+						return paramName(prm)
 					}
 					if _, isCall := src.(*ssa.Call); isCall {
 						return pathExpr(src)
@@ -417,4 +435,20 @@ func evalGlobalInitSSA(p *core.Prog, in *absint.Interp, g *ssa.Global) (absint.V
 		return nil, false
 	}
 	return eval(stored, 0)
+}
+
+// paramName renders a parameter. A method's receiver is rendered canonically - the lower-cased
+// first letter of its type name, Go's own convention - so that renaming a receiver changes nothing.
+func paramName(x *ssa.Parameter) string {
+	fn := x.Parent()
+	if fn != nil && fn.Signature.Recv() != nil && len(fn.Params) > 0 && fn.Params[0] == x {
+		t := x.Type()
+		if pt, ok := t.(*types.Pointer); ok {
+			t = pt.Elem()
+		}
+		if n, ok := t.(*types.Named); ok && n.Obj().Name() != "" {
+			return strings.ToLower(n.Obj().Name()[:1])
+		}
+	}
+	return x.Name()
 }
